@@ -2,6 +2,12 @@
 export must be present, unchanged, after the import; the second export must equal the first."""
 
 
+# record kinds no getter or query ever reads: storage's legacy ActiveProviders index is written by
+# InitGenesis only (from a list ExportGenesis recomputes out of providers and proof records) and
+# read by nothing, so what it holds is not state "readable through the modules' queries"
+DERIVED = {("storage", "ActiveProviders")}
+
+
 def c19(rec):
     if rec.get("mod") != "genesis":
         return []
@@ -12,10 +18,12 @@ def c19(rec):
     if rec.get("validateErr"):
         out.append({"sig": {"prop": "C19", "kind": "export-fails-validation", "module": m}, "what": f"{m}: exported genesis fails ValidateGenesis: {rec['validateErr']}"})
     for kind, e in rec.get("kinds", []):
+        if (m, kind) in DERIVED:
+            continue
         if e["lost"] or e["changed"]:
             out.append({"sig": {"prop": "C19", "kind": "record-kind-lost", "module": m, "record": kind},
                         "what": f"{m}: {e['lost']} of {e['before']} {kind} records are missing and {e['changed']} differ after export -> import (e.g. {(e.get('lostSample') or e.get('changedSample') or ['?'])[0]!r})"})
-        if e["extra"] and not (m == "storage" and kind == "ActiveProviders"):
+        if e["extra"]:
             out.append({"sig": {"prop": "C19", "kind": "record-appeared", "module": m, "record": kind},
                         "what": f"{m}: {e['extra']} {kind} records exist after the import that were not there before"})
     if not rec.get("reexportEqual", True):
